@@ -13,11 +13,16 @@ ALL = ["C%02d" % i for i in range(1, 21)]
 
 CHECKS = {}
 TEXTS = {}
+# Only properties listed in checks.d/READY are claimed in MANIFEST.json; the driver can still run
+# the others (VERIF_ALL=1 ./check C<NN> quick, or directly by id) while they are being vetted.
+with open(os.path.join(HERE, "checks.d", "READY")) as _f:
+    READY = set(_f.read().split())
 for path in sorted(glob.glob(os.path.join(HERE, "checks.d", "C*.json"))):
     with open(path) as f:
         c = json.load(f)
     if c.get("disabled"):
         continue
+    c["ready"] = c["id"] in READY
     CHECKS[c["id"]] = c
     TEXTS[c["id"]] = {"text": c["text"], "design_ref": c["design_ref"], "note": c["note"]}
 
@@ -29,5 +34,5 @@ if os.path.exists(_rp):
 
 NOT_APPLICABLE = [
     {"property_id": p, "reason": _REASONS.get(p, "check not built yet in this session; not claimed until it runs silently on the unchanged tree")}
-    for p in ALL if p not in CHECKS
+    for p in ALL if p not in CHECKS or not CHECKS[p]["ready"]
 ]
